@@ -84,17 +84,18 @@ def fmtv(x):
 
 
 def make_vcf(D, cases, name, integer=False):
-    """cases: list of (xr vector, masked); XA is derived as the ALT part of XR"""
-    ref, alts = l1_strings()
+    """cases: list of (xr vector, masked); XA is derived as the ALT part of XR; len(xr) - 1 ALTs are listed"""
+    ref, all_alts = l1_strings()
     lines = list(HEADER)
     for i, (xr, masked) in enumerate(cases):
+        alts = all_alts[: len(xr) - 1]
         if integer:
-            info = "XRI=%s;XAI=%s" % (",".join(str(int(x)) for x in xr), ",".join(str(int(x)) for x in xr[1:]))
+            info = "XRI=%s;XAI=%s" % (",".join(str(int(x)) for x in xr), ",".join(str(int(x)) for x in xr[1:]) if len(xr) > 1 else ".")
         else:
-            info = "XR=%s;XA=%s" % (",".join(fmtv(x) for x in xr), ",".join(fmtv(x) for x in xr[1:]))
+            info = "XR=%s;XA=%s" % (",".join(fmtv(x) for x in xr), ",".join(fmtv(x) for x in xr[1:]) if len(xr) > 1 else ".")
         if masked:
             info = "REFMASKED;" + info
-        lines.append("chr1\t9\tr%d\t%s\t%s\t.\t.\t%s" % (i, ref, ",".join(alts), info))
+        lines.append("chr1\t9\tr%d\t%s\t%s\t.\t.\t%s" % (i, ref, ",".join(alts) if alts else ".", info))
     p = os.path.join(D.dir, name)
     with open(p, "w") as f:
         f.write("\n".join(lines) + "\n")
@@ -143,19 +144,26 @@ def job_prior(job):
     payload = {"kind": "job", "job": job}
     d = env.scratch_dir("c16")
     grid = FGRID if typ == "float" else IGRID
-    ref, alts = "ACA", ["AGA", "ACT"]
+    ref, all_alts = "ACA", ["AGA", "ACT"]
     rfield, afield = ("XR", "XA") if typ == "float" else ("XRI", "XAI")
-    cases = [(xr, xa, m) for xr in itertools.product(grid, repeat=3) for xa in itertools.product(grid, repeat=2) for m in (0, 1)]
+    cases = []
+    for n_alt in (0, 1, 2):
+        for xr in itertools.product(grid, repeat=1 + n_alt):
+            for xa in itertools.product(grid, repeat=n_alt):
+                for m in (0, 1):
+                    cases.append((xr, xa, m))
     cases = [c for i, c in enumerate(cases) if i % nch == ch]
     path = os.path.join(str(d), "p.vcf")
     with open(path, "w") as f:
         f.write("\n".join(HEADER) + "\n")
         for i, (xr, xa, m) in enumerate(cases):
-            info = "%s=%s;%s=%s" % (rfield, ",".join(fmtv(x) for x in xr), afield, ",".join(fmtv(x) for x in xa))
-            f.write("chr1\t10\tr%d\t%s\t%s\t.\t.\t%s%s\n" % (i, ref, ",".join(alts), "REFMASKED;" if m else "", info))
+            alts = all_alts[: len(xa)]
+            info = "%s=%s;%s=%s" % (rfield, ",".join(fmtv(x) for x in xr), afield, ",".join(fmtv(x) for x in xa) if xa else ".")
+            f.write("chr1\t10\tr%d\t%s\t%s\t.\t.\t%s%s\n" % (i, ref, ",".join(alts) if alts else ".", "REFMASKED;" if m else "", info))
     fl = filters((rfield, afield))
     with pysam.VariantFile(path) as vf:
         for rec, (xr, xa, m) in zip(vf, cases):
+            alts = all_alts[: len(xa)]
             for flt in fl:
                 for tag in (None, rfield):
                     r.evaluations += 1
@@ -163,11 +171,11 @@ def job_prior(job):
                         r.nontrivial += 1
                     kept, mask, freqs = expected_prior(ref, alts, xr, xa, m, flt, tag)
                     fstr = None if flt is None else "%s%s%s" % flt
-                    tagd = "type=%s|XR=%s|XA=%s|masked=%d|filter=%s|freq=%s" % (typ, xr, xa, m, fstr, tag)
+                    tagd = "type=%s|n_alt=%d|XR=%s|XA=%s|masked=%d|filter=%s|freq=%s" % (typ, len(alts), xr, xa, m, fstr, tag)
                     try:
                         lp = LocusPrior.from_variant_record(rec, frequency_tag=tag, allele_filter=fstr)
                     except Exception as e:  # noqa
-                        r.violation("prior-exception|type=%s|%s" % (typ, type(e).__name__), "%s: %s (%s)" % (type(e).__name__, str(e)[:150], tagd), payload)
+                        r.violation("prior-exception|type=%s|n_alt=%d|field=%s|%s" % (typ, len(alts), flt and flt[0], type(e).__name__), "%s: %s (%s)" % (type(e).__name__, str(e)[:150], tagd), payload)
                         continue
                     if list(lp.alts) != kept:
                         r.violation("prior-alts|type=%s|field=%s" % (typ, flt and flt[0]), "retained ALT %r, alleles passing the predicate %r (%s)" % (list(lp.alts), kept, tagd), payload)
@@ -218,7 +226,7 @@ def job_parse(job):
 
 # --------------------------------------------------------------------------- programs
 def check_output(r, payload, prog, out, cases, flt, tag, integer, tagp):
-    ref, alts = l1_strings()
+    ref, all_alts = l1_strings()
     hdr, samples, recs = vcfparse.parse(out)
     if len(recs) != len(cases):
         r.violation("prog-records|%s" % prog, "%d records for %d input records (%s)" % (len(recs), len(cases), tagp), payload)
@@ -227,6 +235,7 @@ def check_output(r, payload, prog, out, cases, flt, tag, integer, tagp):
         r.evaluations += 1
         if flt is not None or tag:
             r.nontrivial += 1
+        alts = all_alts[: len(xr) - 1]
         kept, mask, freqs = expected_prior(ref, alts, xr, xr[1:], masked, flt, tag)
         tagd = "%s|XR=%s|masked=%d" % (tagp, xr, masked)
         if rec["ref"] != ref or rec["alt"] != kept:
@@ -287,7 +296,7 @@ def job_prog(job):
     d = env.scratch_dir("c16p")
     D = stddata.Data(d)
     grid = [0.0, 0.25, 0.5, 1.0]
-    cases = [(xr, m) for xr in itertools.product(grid, repeat=3) for m in (0, 1)]
+    cases = [(xr, m) for n in (3, 2, 1) for xr in itertools.product(grid, repeat=n) for m in (0, 1)]
     hv = make_vcf(D, cases, "in.vcf")
     fstr = None if flt is None else "%s%s%s" % tuple(flt)
     for tag in (None, "XR"):
